@@ -175,9 +175,20 @@ def run_frontend(case, rec):
             v = t
         else:
             v = t + worse
-        return [v, v] if nobj == 2 else v
+        if nobj != 2:
+            return v
+        # the second objective follows the first one, reaches the target later, or never does: the best fitness is within
+        # tolerance of the target when ALL of it is
+        if second == "later" and k < case["target_at"] + 7:
+            return [v, t + worse]
+        if second == "never":
+            return [v, t + worse]
+        return [v, v]
 
     nobj = case.get("objectives", 1)
+    second = ["same", "later", "never"][case["seed"] % 3] if nobj == 2 else "same"
+    if nobj == 2:
+        rec.count(f"frontend_second_objective:{second}")
     if nobj == 2:
         rec.count("frontend_multi_objective_runs")
     log: list = []
@@ -189,12 +200,12 @@ def run_frontend(case, rec):
         def is_done(self, tr):
             verdict = self.inner.is_done(tr)
             best = tr.get_best_individual()
-            log.append({"evals": tr.get_number_evaluations(), "calls": calls[0], "verdict": bool(verdict), "best": None if best is None else best.get_fitness(tr.get_problem()).fitness_components[0]})
+            log.append({"evals": tr.get_number_evaluations(), "calls": calls[0], "verdict": bool(verdict), "best": None if best is None else list(best.get_fitness(tr.get_problem()).fitness_components)})
             if len(log) > cap + 200:
                 raise Stalled()
             return verdict
 
-    wit = {"front": "SimpleGP", "target_fitness": repr(target), "minimize": minimize, "max_evaluations": cap, "population": case["pop"], "landscape": case["landscape"], "target_at": case["target_at"], "repr": case["repr"]}
+    wit = {"front": "SimpleGP", "target_fitness": repr(target), "objectives": nobj, "second_objective": second, "minimize": minimize, "max_evaluations": cap, "population": case["pop"], "landscape": case["landscape"], "target_at": case["target_at"], "repr": case["repr"]}
     try:
         gp = SimpleGP(f, g, minimize=[minimize, minimize] if nobj == 2 else minimize, target_fitness=target, representation=case["repr"], max_depth=4, max_evaluations=cap, max_time=600, seed=case["seed"], population_size=case["pop"], elitism=1, novelty=1)
         gp.gp.budget = Watching(gp.gp.budget)
@@ -216,7 +227,7 @@ def run_frontend(case, rec):
     if not log:
         rec.violation("budget-never-checked", wit)
         return
-    reached = [target is not None and e["best"] is not None and abs(e["best"] - t) < 1e-4 for e in log]
+    reached = [target is not None and e["best"] is not None and all(abs(c - t) < 1e-4 for c in e["best"]) for e in log]
     first = next((i for i, (ok, e) in enumerate(zip(reached, log)) if ok or e["evals"] >= cap), None)
     hist = [(e["evals"], e["best"], e["verdict"]) for e in log[-6:]]
     if not log[-1]["verdict"] or any(e["verdict"] for e in log[:-1]):
@@ -275,7 +286,14 @@ def run_case(case, rec):
         return v
 
     prob = SingleObjectiveProblem(f, minimize=minimize)
-    tracker = SingleObjectiveProgressTracker(prob, SequentialEvaluator())
+    evaluator = SequentialEvaluator()
+    if case["seed"] % 4 == 0:
+        # the evaluator object served an EARLIER search (one evaluator - a pool of workers, say - for several searches in a
+        # row): "a search with an evaluation budget n" counts its own evaluations
+        earlier = 3 + case["seed"] % 11
+        RandomSearch(SingleObjectiveProblem(lambda p: 0.0), EvaluationBudget(earlier), rep, workload.native(case["seed"] + 1), tracker=SingleObjectiveProgressTracker(SingleObjectiveProblem(lambda p: 0.0), evaluator)).search()
+        rec.count("searches_on_an_evaluator_that_served_an_earlier_search")
+    tracker = SingleObjectiveProgressTracker(prob, evaluator)
     log: list = []
     batch = {"gp": size, "rs": 1, "hc": size, "opo": 1}[case["alg"]]
     limit_stall = 50
